@@ -1010,9 +1010,13 @@ class Engine:
             G(z3.Implies(x2 <= x, z3.fpLEQ(r2, r)), "float64(int64): monotone")
         # link with earlier float->int truncations: float64(int64(f)) is not beyond f
         for (f2, i2) in self.ghost.setdefault("fromF_apps", []):
-            G(z3.Implies(z3.And(x == i2, z3.fpGEQ(f2, zero)), z3.fpLEQ(r, f2)), "float64(int64(f)) <= f for f >= 0")
-            G(z3.Implies(z3.And(x == i2, z3.fpLEQ(f2, zero)), z3.fpGEQ(r, f2)), "float64(int64(f)) >= f for f <= 0")
-            G(z3.Implies(z3.And(x == -i2, z3.fpLEQ(f2, zero), i2 != bv(-(1 << 63))), z3.fpLEQ(r, z3.fpNeg(f2))), "float64(-int64(f)) <= -f for f <= 0")
+            # (with monotonicity of the conversion: anything not beyond the truncated integer converts to
+            # something not beyond f)
+            inr2 = z3.And(z3.Not(z3.fpIsNaN(f2)), z3.fpLT(z3.fpAbs(f2), z3.FPVal(9223372036854775808.0, F64)))
+            G(z3.Implies(z3.And(inr2, x <= i2, z3.fpGEQ(f2, zero)), z3.fpLEQ(r, f2)), "x <= int64(f) => float64(x) <= f for f >= 0")
+            G(z3.Implies(z3.And(inr2, x >= i2, z3.fpLEQ(f2, zero)), z3.fpGEQ(r, f2)), "x >= int64(f) => float64(x) >= f for f <= 0")
+            G(z3.Implies(z3.And(inr2, x <= -i2, z3.fpLEQ(f2, zero), i2 != bv(-(1 << 63))), z3.fpLEQ(r, z3.fpNeg(f2))), "x <= -int64(f) => float64(x) <= -f for f <= 0")
+            G(z3.Implies(z3.And(inr2, x >= -i2, z3.fpGEQ(f2, zero)), z3.fpGEQ(r, z3.fpNeg(f2))), "x >= -int64(f) => float64(x) >= -f for f >= 0")
         apps.append((x, r))
         self.refinements.append(r == z3.fpSignedToFP(RNE, x, F64))
         return r
